@@ -285,6 +285,9 @@ func runC08(c *report.Ctx) {
 	ruleRemovalKeepsSurvivorsReservations(c)
 	ruleNoNewRowsForRemovedWallet(c)
 	ruleRemovableVerdictConsidersInputs(c)
+	c.Rule("removal-resumed-after-restart", "the worker's start-up scan queues a removal for every status row flagged removed — under IsRemoved() alone: a removal interrupted between two of its steps is finished after a restart", 1)
+	ruleRestartResumesTasks(c)
+	rulePartialDecoderFreshRecord(c)
 	ruleBalanceLookupPresence(c) // a rollback between two removal steps must not re-create the removed wallet's rows
 	ruleImportAppliesSpends(c) // "the same mnemonic can be imported again": records a removal kept for a co-owner must not make the re-import skip the spends
 	ruleSelectionResetOnDelete(c)
